@@ -223,10 +223,13 @@ class ClientNode:
             self.do(self.ops.popleft())
         c = self.client
         if c is not None:
+            w.current_client = self
             try:
                 c.update()
             except Exception as e:      # noqa
                 w.exc(self.name, "update", e)
+            finally:
+                w.current_client = None
             try:
                 msgs = c.getMessages()
             except Exception as e:      # noqa
@@ -364,8 +367,10 @@ class World:
         self.monitors = list(monitors)
         self.custom_ops = {}
         self.after_build = []      # fn(world) called once server and client nodes exist, before the run starts
+        self.current_client = None # ClientNode whose update() is running
         self.violations = []
         self.probes = collections.Counter()
+        self.injections = {}       # attacker generator -> datagrams injected
         self.maxima = {}           # name -> value, aggregated with max() over the runs of a batch
         self.end_time = c["duration"]
         self.stopped = False
